@@ -376,3 +376,25 @@ func H_M9_sizecache() {
 	nd.Assert(size == len(want), "Size is recomputed below a map value / oneof member, not taken from a stale cache")
 	nd.Assert(mEq(got, want), "Marshal after Size encodes the current content whatever the caches held (map value / oneof member)")
 }
+
+// H_M1_oneof / H_M1_maps: the M1 body (decoder vs validator vs generic scan vs checkInitialized,
+// never panics, consumes exactly its input) on every short byte string for the oneof and map
+// corpus types: truncated entries, wrong wire types for members, entries with unknown inner fields.
+//
+//verif:props=C06,C12 bounds=v.One|v.One3;all-byte-strings<=4 maxsteps=10000000 timeout=60000
+func H_M1_oneof() {
+	k := 30
+	if nd.Bool() {
+		k = 31
+	}
+	mDecodeChecks(k, nd.Bytes(4))
+}
+
+//verif:props=C06 bounds=v.Maps;all-byte-strings<=4(quick)/5(thorough) maxsteps=10000000 timeout=60000
+func H_M1_maps() {
+	N := 4
+	if nd.Thorough() {
+		N = 5
+	}
+	mDecodeChecks(32, nd.Bytes(N))
+}
